@@ -45,6 +45,16 @@ def _len(ip: Interp, args, kw, fr):
             raise PyRaise(TypeError, (), 'len(None)')
         if len(alts) == 1:
             v = ip.unbox(v.e, alts[0])
+        else:
+            for a in alts:
+                if a[0] in ('list', 'dict') and ip.decide(z3.And(Val.is_r(v.e), cls_of(Val.rv(v.e)) == ip.reg.cid(a[0]))):
+                    v = ip.unbox(v.e, a)
+                    break
+                if a[0] == 'str' and ip.decide(Val.is_s(v.e)):
+                    v = mk_str(Val.sv(v.e))
+                    break
+            else:
+                raise PyRaise(TypeError, (), 'object has no len()')
     if v.k == 'gen':
         raise PyRaise(TypeError, (), 'len of generator')
     if v.k in ('presults', 'pgroup'):
